@@ -6,7 +6,8 @@
 # Keeps the artefacts in /verif/seeded/<ID>-<n>/ with a meta.json extended by what was run here.
 set -u
 ID="$1"; N="$2"; TIER="${3:-quick}"
-SRC="/tmp/seed/out-$ID/$N"
+ROUND="${SEED_ROUND:-1}"
+if [ "$ROUND" = 1 ]; then SRC="/tmp/seed/out-$ID/$N"; TAG="$ID-$N"; else SRC="/tmp/seed/out$ROUND-$ID/$N"; TAG="$ID-r$ROUND-$N"; fi
 export GOFLAGS=-mod=mod GOPROXY=off GOSUMDB=off GOTOOLCHAIN=local
 WT="$(mktemp -d /tmp/wt-seed.XXXXXX)"; OUT="$(mktemp -d /tmp/out-seed.XXXXXX)"; rmdir "$WT"
 git -C /repo worktree add -q "$WT" HEAD || exit 9
@@ -29,15 +30,15 @@ rundemo() { # $1 = label
   rm -f "$WT/$pkgdir/zz_seed_demo_test.go"
 }
 demo_without="$(rundemo without)"
-if ! git -C "$WT" apply "$SRC/patch.diff"; then echo "SEED $ID-$N patch-does-not-apply"; exit 8; fi
+if ! git -C "$WT" apply "$SRC/patch.diff"; then echo "SEED $TAG patch-does-not-apply"; exit 8; fi
 demo_with="$(rundemo with)"
 if VERIF_REPO="$WT" /verif/scripts/baseline.sh >"$OUT/baseline.log" 2>&1; then base=pass; else base=FAIL; fi
 VERIF_REPO="$WT" VERIF_OUT="$OUT" /verif/check "$ID" "$TIER" >"$OUT/check.log" 2>&1
 rc=$?
 keys="$(grep -A1 '^VIOLATION' "$OUT/check.log" | grep 'key:' | sed 's/^ *key: //' | head -4 | paste -sd';')"
-echo "SEED $ID-$N baseline=$base demo_without=$demo_without demo_with=$demo_with check_exit=$rc keys=[$keys]"
+echo "SEED $TAG baseline=$base demo_without=$demo_without demo_with=$demo_with check_exit=$rc keys=[$keys]"
 [ $rc -eq 2 ] && tail -5 "$OUT/check.log"
-D="/verif/seeded/$ID-$N"; mkdir -p "$D"
+D="/verif/seeded/$TAG"; mkdir -p "$D"
 cp "$SRC/patch.diff" "$D/"; [ -n "$demo" ] && cp "$demo" "$D/"; for f in with.txt without.txt; do [ -e "$SRC/$f" ] && cp "$SRC/$f" "$D/"; done
 python3 - "$SRC/meta.json" "$D/meta.json" "$ID" "$base" "$demo_without" "$demo_with" "$rc" "$keys" "$TIER" <<'PY'
 import json,sys
